@@ -320,18 +320,9 @@ Proof.
     lia.
   - (* CanonDenom *)
     rewrite !andb_true_iff in Hwf. destruct Hwf as [[Hlo Hhi] Hv]. unfold in_range, MAX_MONEY_Z, COIN in *.
-    destruct (Z_le_gt_dec 1 v) as [G|G].
-    + rewrite canonical_opt_terminates in Hrun by (try right; lia).
-      rewrite canonical_equiv_gen in Hrun by (try right; lia).
-      destruct o as [b|]; cbn [option_eqb] in *; [apply eqb_prop in Hrun; subst b; apply eqb_reflx | discriminate].
-    + assert (v = 0) by lia. subst v.
-      destruct (Z_le_gt_dec 1 lo) as [G2|G2].
-      * rewrite canonical_opt_terminates in Hrun by (try left; lia).
-        rewrite canonical_equiv_gen in Hrun by (try left; lia).
-        destruct o as [b|]; cbn [option_eqb] in *; [apply eqb_prop in Hrun; subst b; apply eqb_reflx | discriminate].
-      * assert (lo = 0) by lia. subst lo. exfalso.
-        rewrite canonical_zero_bound_refuted in Hrun by lia.
-        destruct o as [b|]; cbn in Hrun; [discriminate|]. cbn in Hkc. discriminate.
+    rewrite canonical_opt_terminates in Hrun by lia.
+    rewrite canonical_equiv_gen in Hrun by (try left; lia).
+    destruct o as [b|]; cbn [option_eqb] in *; [apply eqb_prop in Hrun; subst b; apply eqb_reflx | discriminate].
   - (* Wakeups *)
     rewrite !andb_true_iff in Hwf. destruct Hwf as [[[[Hm Hj] Htip] Hw] Hts].
     apply words_u64w in Hw. unfold h32, in_u32, in_range in *.
